@@ -563,16 +563,42 @@ func TestC13Agree(t *testing.T) {
 // C13CorruptCase is a valid document per format and the same document with
 // one token replaced.
 type C13CorruptCase struct {
-	Shape shape.Shape       `json:"shape"`
-	Data  shape.Data        `json:"data"`
-	Wrap  string            `json:"wrap"`
-	Kind  string            `json:"kind"` // which corruption
-	Path  string            `json:"path"` // Go field path of the corrupted value
+	Shape shape.Shape `json:"shape"`
+	Data  shape.Data  `json:"data"`
+	Wrap  string      `json:"wrap"`
+	Kind  string      `json:"kind"` // which corruption
+	Path  string      `json:"path"` // Go field path of the corrupted value ("" for trailing-garbage)
+	// Stray holds, for trailing-garbage, the token appended to each format's
+	// valid document (labels and messages only; Bad is what is decoded).
+	Stray map[string]string `json:"stray,omitempty"`
 	Valid map[string]string `json:"valid"`
 	Bad   map[string]string `json:"bad"`
 }
 
 var corruptKinds = []string{"bare-word", "string-for-number", "unterminated-string", "unterminated-bracket", "list-for-struct", "list-for-map", "scalar-for-list", "scalar-for-struct"}
+
+// trailingKind appends one stray token after the complete valid document.
+const trailingKind = "trailing-garbage"
+
+// Tokens that each format's grammar must refuse after a complete document
+// (every pair was confirmed to be rejected on the unchanged tree; see the
+// assumptions of C13/corrupt for the pairs that were dropped).
+var trailingTokens = map[string][]string{
+	"json": {"}", "]", `"zzqx"`, "zzqx", "<<<<<<< HEAD", "{", `{"zzqx"`, ",", ":", "5", "["},
+	"yaml": {"}", "]", `"zzqx"`, "zzqx", "<<<<<<< HEAD", "{", `{"zzqx"`, ",", "=", "5", "["},
+	"toml": {"}", "]", `"zzqx"`, "zzqx", "<<<<<<< HEAD", "{", `{"zzqx"`, ",", "=", "5", "[", "zzqx ="},
+	"cue":  {"}", "]", `"zzqx"`, "zzqx", "<<<<<<< HEAD", "{", `{"zzqx"`, ":", "=", "5", "["},
+}
+
+// Whitespace between the document and the stray token.  In YAML the token
+// stays in column 0: indented under a root-level plain scalar it would be a
+// legal continuation line of that scalar ("host: abc\n }" is "abc }").
+var trailingSeps = map[string][]string{
+	"json": {"", "\n", " ", "\n\n", "\t"},
+	"yaml": {"", "\n", "\n\n"},
+	"toml": {"", "\n", " ", "\n\n", "\t"},
+	"cue":  {"", "\n", " ", "\n\n", "\t"},
+}
 
 func eligible(kind string, n *dnode) bool {
 	isNum := false
@@ -719,9 +745,15 @@ func genC13Corrupt(t *rapid.T) C13CorruptCase {
 	if len(cands) == 0 {
 		t.Fatalf("no corruptible token in a non-empty document")
 	}
-	cd := cands[rapid.IntRange(0, len(cands)-1).Draw(t, "corrupt_kind")]
-	c.Kind = cd.kind
-	c.Path = cd.ns[rapid.IntRange(0, len(cd.ns)-1).Draw(t, "corrupt_node")].path
+	// one case in eight (rapid favours the ends of a range, so the hit is
+	// an inner value)
+	if rapid.IntRange(0, 7).Draw(t, "trailing_garbage") == 3 {
+		c.Kind = trailingKind
+	} else {
+		cd := cands[rapid.IntRange(0, len(cands)-1).Draw(t, "corrupt_kind")]
+		c.Kind = cd.kind
+		c.Path = cd.ns[rapid.IntRange(0, len(cd.ns)-1).Draw(t, "corrupt_node")].path
+	}
 	if err := corruptTexts(&c, trees, base); err != nil {
 		t.Fatalf("%v", err)
 	}
@@ -739,9 +771,24 @@ func corruptTexts(c *C13CorruptCase, trees map[string]*dnode, base pick) error {
 	if c.Kind == "unterminated-string" {
 		forced = map[string]int{"yaml_strq": 1, "yaml_key_quoted": 1, "toml_literal_str": 0, "toml_key_quoted": 1}
 	}
+	if c.Kind == trailingKind {
+		// yaml.v2 reads the first document only and a flow mapping at the root
+		// ends it: whatever follows is never looked at.  The YAML document is
+		// therefore written in block style, where a stray token is still part
+		// of the root mapping.
+		forced = map[string]int{"yaml_flow_doc": 1}
+		c.Stray = map[string]string{}
+	}
 	for _, f := range formats {
 		rp := &recPick{draw: base, forced: forced}
 		c.Valid[f] = render(f, trees[f], rp.pick)
+		if c.Kind == trailingKind {
+			toks := trailingTokens[f]
+			c.Stray[f] = toks[base("trailing_token", len(toks))]
+			seps := trailingSeps[f]
+			c.Bad[f] = trailingText(c.Valid[f], seps[base("trailing_sep", len(seps))], c.Stray[f], base("trailing_newline", 2) == 0)
+			continue
+		}
 		n := trees[f].find(c.Path)
 		if n == nil {
 			return fmt.Errorf("harness: path %s not found in the %s tree", c.Path, f)
@@ -758,6 +805,14 @@ func corruptTexts(c *C13CorruptCase, trees map[string]*dnode, base pick) error {
 		}
 	}
 	return nil
+}
+
+func trailingText(valid, sep, tok string, finalNewline bool) string {
+	s := valid + sep + tok
+	if finalNewline {
+		s += "\n"
+	}
+	return s
 }
 
 func runC13Corrupt(c C13CorruptCase) vrt.Verdict {
@@ -783,11 +838,20 @@ func runC13Corrupt(c C13CorruptCase) vrt.Verdict {
 		}
 		got, err := decodeText(f, c.Wrap, badText, pt)
 		if err == nil {
-			return vrt.KeyedViolationf("corrupt-accepted", "%s decoder (wrap=%s) accepts a document corrupted by %s at %s: value %v\n--- valid\n%s--- corrupted\n%s", f, c.Wrap, c.Kind, c.Path, got, valid, badText)
+			return vrt.KeyedViolationf("corrupt-accepted", "%s decoder (wrap=%s) accepts a document corrupted by %s at %q: value %v\n--- valid\n%s--- corrupted\n%s", f, c.Wrap, c.Kind, c.Path, got, valid, badText)
 		}
 		if got.IsValid() && !got.IsZero() {
 			return vrt.KeyedViolationf("partial-value", "%s decoder (wrap=%s) returns error %q together with a partially filled value %v for\n%s", f, c.Wrap, err, got, badText)
 		}
+	}
+	if c.Kind == trailingKind {
+		labels := []string{"wrap:" + c.Wrap, "kind:" + c.Kind}
+		for _, f := range formats {
+			if tok, ok := c.Stray[f]; ok {
+				labels = append(labels, "stray:"+f+":"+tok)
+			}
+		}
+		return vrt.OK(fx.presentLeaves >= 3, labels...)
 	}
 	depth := strings.Count(c.Path, ".")
 	labels := []string{"wrap:" + c.Wrap, "kind:" + c.Kind, "depth:" + strconv.Itoa(depth)}
@@ -799,11 +863,14 @@ func TestC13Corrupt(t *testing.T) {
 	vrt.Check(t, vrt.Prop[C13CorruptCase]{
 		ID: "C13", Name: "corrupt",
 		Rule: "a valid document per format as in C13/agree (at least one key present), then one value token chosen by type is replaced in all four documents: a bare word where a number, bool or time is expected, a quoted string where a number or bool is expected, a string without its closing quote, a list/mapping without its closing bracket, a list where a struct or a map is expected, a number where a list or a struct is expected; " +
+			"in about 12% of the cases nothing is replaced and instead (trailing-garbage) one stray token from a per-format list (closing/opening bracket, quoted or bare word, conflict marker, the start of a second object, comma, colon, equals sign, number) follows the complete valid document after optional whitespace; " +
 			"oracle: the valid document decodes without error; the corrupted one returns an error and an invalid or all-nil value from every decoder; " +
-			"non-trivial = the corrupted value is inside a nested struct and at least three leaves are present in the document; distinct = distinct case JSON",
+			"non-trivial = at least three leaves are present in the document and the corrupted value is inside a nested struct (trailing-garbage: at least three leaves present); distinct = distinct case JSON",
 		Assumptions: append(append([]string{}, c13Assumptions...),
 			"only corruptions that the grammar or the target type of every format must refuse are used; a float where an integer is expected is not among them (yaml.v2 truncates it by design)",
 			"the replacement word zzqx is not a key of any generated document (Cue would read it as a reference to that field)",
+			"trailing-garbage uses only (format, token, separator) combinations that the unchanged decoders were confirmed to reject (2983 documents per combination); dropped: Cue ',' (a trailing comma after the top-level fields is legal Cue); YAML 'zzqx:' and '? zzqx' (one more key with a null value, unknown keys are ignored) and '- zzqx' (one more element when the document ends in a root-level block sequence); YAML separators that indent the token (a continuation line of a root-level plain scalar)",
+			"for trailing-garbage the YAML document is written in block style: yaml.v2 Unmarshal reads the first document only, a flow mapping at the root ends that document and whatever follows ('{a: 1}\\n}') is never parsed, so every token is accepted there; that is the third-party parser's reading of a stream, not something the dials decoder decides",
 		),
 		Gen: genC13Corrupt, Run: runC13Corrupt,
 	})
